@@ -262,8 +262,10 @@ def _point(draw, N):
 
 
 @st.composite
-def _direction(draw, N):
-    if draw(st.booleans()):
+def _direction(draw, N, prefer_real=False):
+    """integer valued (int64 or float64 storage) or real; prefer_real: an integer-dtype seed point with a NON-integer
+    direction is the cell where a driver that casts v to x.dtype would silently truncate"""
+    if draw(st.sampled_from([True, False, False, False] if prefer_real else [True, False])):
         vals = draw(st.lists(st.integers(-3, 3), min_size=N, max_size=N))
         return np.array(vals, dtype=np.int64 if draw(st.booleans()) else float)
     el = st.one_of(st.integers(-16, 16).map(lambda k: k / 8.0), gen.nice_floats(-3.0, 3.0))
@@ -292,7 +294,7 @@ def poly_cases(draw, driver, d=None, tier='quick', NS=None):
     x, kind = draw(_point(N))
     case = {'prog': prog, 'N': N, 'x': x, 'pkind': kind, 'out': out, 'steered': steered}
     if driver in ('jac_vec', 'hess_vec'):
-        case['v'] = draw(_direction(N))
+        case['v'] = draw(_direction(N, prefer_real=(kind == 'int64')))
     if driver == 'tensor':
         case['d'] = d
     if driver in ('jacobian', 'jac_vec', 'hess_vec'):
@@ -321,7 +323,12 @@ def _cl(case):
     if case.get('dtype_arg'):
         c.append('dtype-arg')
     if 'v' in case:
-        c.append('v=' + str(case['v'].dtype))
+        v = case['v']
+        c.append('v=' + str(v.dtype))
+        nonint = bool(np.any(v != np.round(v)))
+        c.append('v-noninteger' if nonint else 'v-integer-valued')
+        if case['x'].dtype.kind == 'i':
+            c.append('x-int-dtype&v-noninteger' if nonint else 'x-int-dtype&v-integer-valued')
     for o in sorted(P.ops_used(case['prog'])):
         c.append('op:' + o)
     return c
